@@ -12,6 +12,7 @@
 # See the License for the specific language governing permissions and
 # limitations under the License.
 
+import os
 from pathlib import Path
 
 from antlr4 import InputStream, CommonTokenStream
@@ -58,6 +59,8 @@ class Parser(IdlVisitor):
             file_reader: FileReaderWriter,
             idl: Path,
             position: Position = None,
+            import_stack: tuple[Path, ...] = (),
+            imported: set[Path] = None,
     ):
         self.resolver = resolver
         self.targets = targets
@@ -67,6 +70,9 @@ class Parser(IdlVisitor):
         self.default_deriving = default_deriving
         self.idl = idl
         self.position = position
+        # files currently being parsed (cycle detection) and files already imported (each file is loaded once)
+        self.import_stack = import_stack + (Path(os.path.abspath(idl)),)
+        self.imported = imported if imported is not None else set()
         self.type_decls: list[BaseType] = []
         self.field_decls: list[BaseField] = []
         self.type_refs: list[TypeReference] = []
@@ -471,6 +477,16 @@ class Parser(IdlVisitor):
     def visitImportDef(self, ctx: IdlParser.ImportDefContext):
         import_path = self.visit(ctx.filepath())
         if import_path:
+            import_key = Path(os.path.abspath(import_path.path))
+            if import_key in self.import_stack:
+                self.errors.append(Parser.ParsingException(
+                    f"Circular import detected: file {import_path.path} indirectly imports itself!",
+                    self._position(ctx)
+                ))
+                return
+            if import_key in self.imported:
+                return
+            self.imported.add(import_key)
             try:
                 imported_type_decls, type_refs, _, _ = Parser(
                     resolver=self.resolver,
@@ -480,7 +496,9 @@ class Parser(IdlVisitor):
                     default_deriving=self.default_deriving,
                     file_reader=self.file_reader,
                     idl=import_path.path,
-                    position=self._position(ctx)
+                    position=self._position(ctx),
+                    import_stack=self.import_stack,
+                    imported=self.imported
                 ).parse()
                 self.type_decls += imported_type_decls
                 self.type_refs += type_refs
